@@ -288,6 +288,12 @@ func (state inSession) resendMessages(session *session, beginSeqNo, endSeqNo int
 		return err
 	}
 
+	if beginSeqNo <= endSeqNo && nextSeqNum <= endSeqNo {
+		// The range ends with numbers under which nothing is stored (the outbound counter was moved
+		// forward past them): the closing gap fill covers them like messages that are not resent.
+		nextSeqNum = endSeqNo + 1
+	}
+
 	if seqNum != nextSeqNum { // gapfill for catch-up
 		if err = state.generateSequenceReset(session, seqNum, nextSeqNum, inReplyTo); err != nil {
 			return err
